@@ -324,7 +324,7 @@ func nativeReplay(ov *overlaySet, es *entrySpec, cexPath string, want *Violation
 		}
 		return "native-panic-instead-of-" + want.Kind, s
 	case strings.Contains(s, "VERIF-ASSERT"):
-		if want == nil || want.Kind != "assert" || strings.Contains(s, "VERIF-ASSERT "+want.Label) {
+		if want == nil || (want.Kind == "assert" && strings.Contains(s, "VERIF-ASSERT "+want.Label)) {
 			return "reproduced", s
 		}
 		return "other-assertion-failed-natively", s
